@@ -409,8 +409,8 @@ def _do_rewrite(source: str, rewrite: _Rewrite, *, fix_function_name: str = "") 
             else:
                 choice = candidate
 
-        if not core.is_valid_python(choice):
-            new_code_lines = new_code.splitlines(keepends=True)
+        new_code_lines = new_code.splitlines(keepends=True)
+        if new_code_lines and not core.is_valid_python(choice):
             for extra_indent in range(0, 16, 4):
                 candidate = (
                     source[: old.start]
